@@ -127,6 +127,12 @@ class Runner18(lib.Runner):
         else:
             self.ds = None
             self.st = cls(testing=True, filepath=self.path, enable_lazy_commit=lazy)
+        # a lock held by somebody else (there is nobody else unless a wrapper opens a connection of its own)
+        # is reported after 50 ms instead of sqlite3's default 5 s of real time
+        try:
+            self.st.conn.execute("PRAGMA busy_timeout = 50")
+        except Exception:
+            pass
         # the flush done while opening, dated from the outside
         self.t0 = self.clock.now
         self.t0_store = _fake_us_or_none(getattr(self.st, "last_commit", None))
@@ -535,8 +541,14 @@ def run_sessions(ck, sq, Event, histories):
     -> (pending, wire): pending = list of (session, segment runner, trace index, script indexes)"""
     pending, wire = [], []
     seen = ck.__dict__.setdefault("_reported_signatures", set())
+    import time
+    started, budget = time.time(), (900 if ck.tier == "quick" else 7200)
     for h4 in histories:
         name, lazy, h = h4[:3]
+        if time.time() - started > budget:
+            ck.disagreement("harness", f"the histories take more than {budget} s of real time (stopped before {name}; "
+                                       f"{len(histories)} histories in all): calls that wait on a lock?", {"history": name})
+            break
         layer = h4[3] if len(h4) > 3 else "storage"
         try:
             s = run_session(sq, Event, lazy, h, layer)
